@@ -154,6 +154,14 @@ def call_ext(interp, st, name, args, kwargs, frame, node) -> List[Outcome]:
             return ok(st, Sym(("type", vrepr(v)), {CLS}))
         return ok(st, Sym(("newtype", site), {CLS}))
     if name in ("builtins.any", "builtins.all"):
+        v = a[0] if a else None
+        if isinstance(v, Ref) and isinstance(st.heap.get(v.addr), ListO) and st.heap[v.addr].rest is None \
+                and all(isinstance(i, Const) for i in st.heap[v.addr].items):
+            vals = [bool(i.value) for i in st.heap[v.addr].items]
+            return ok(st, Const(any(vals) if short == "any" else all(vals)))
+        if isinstance(v, TupleV) and all(isinstance(i, Const) for i in v.items):
+            vals = [bool(i.value) for i in v.items]
+            return ok(st, Const(any(vals) if short == "any" else all(vals)))
         return [Outcome("ok", s, Const(b)) for s, b in interp.decide(st, (short, site))]
     if name == "builtins.hash":
         outs = []
@@ -270,6 +278,9 @@ def has_attr(interp, st, obj, name, const, frame, node):
         if ci is not None and const and interp.p.lookup_method(ci, name)[1] is not None:
             return [(st, True)]
         return interp.decide(st, ("hasattr", obj.tok, name))
+    if isinstance(obj, ExtV) and name in ("__origin__", "__args__", "__spec_class__", "__orig_class__") and \
+            obj.name.split(".")[0] in ("builtins", "numbers", "typing") and "[" not in obj.name:
+        return [(st, False)]
     if isinstance(obj, (Const, Sentinel, TupleV)):
         return [(st, False)] if name.startswith("__spec") or name in ("__origin__", "__args__") else \
             interp.decide(st, ("hasattr", vrepr(obj), name))
@@ -350,6 +361,10 @@ def isinstance_(interp, st, v, t, frame, node):
         return [(st, False)]
     if isinstance(v, ClassV):
         return [(st, isinstance(t, ExtV) and t.name == "builtins.type")]
+    if isinstance(v, ExtV) and v.name.split(".")[0] in ("builtins", "numbers") and isinstance(t, ExtV):
+        return [(st, t.name == "builtins.type")]     # a plain external class
+    if isinstance(v, ExtV) and v.name == "typing.Any" and isinstance(t, ExtV):
+        return [(st, False)]
     if isinstance(v, TupleV):
         return [(st, isinstance(t, ExtV) and t.name == "builtins.tuple")]
     if isinstance(v, ExcV):
